@@ -466,6 +466,7 @@ pub fn dna_backgrounds() -> Vec<BgSpec> {
         BgSpec::New(vec![0.25, 0.25, 0.125, 0.125, 0.25]), // non-zero wildcard frequency
         BgSpec::FromCounts(vec![2, 2, 5, 1, 0]),    // through from_counts
         BgSpec::New(vec![1.0e-8, 0.5, 0.25, 0.25, 0.0]), // a frequency below f32::EPSILON (absorbed in the f32 sum, so the constructor accepts it)
+        BgSpec::New(vec![0.0, 1.0, 0.0, 0.0, 0.0]), // one-symbol background (what from_sequence gives for a homopolymer)
     ]
 }
 
